@@ -1471,7 +1471,7 @@ var streamPanicReviewed = map[string]string{
 func C12(c *Ctx) {
 	w, r := c.W, c.R
 	r.Explanation = "(A10) panic-source inventory over every stream function reachable from the stream MsgServer and the stream messages' ValidateBasic: every explicit panic and every call of a panicking SDK API (TruncateInt64/Int64/Uint64, Coin.Sub/Add, NewCoin(s), NewDecCoinFromCoin, Quo*, ...) is enumerated from the resolved program; each site must either be guarded by the recognised dominating predicate (flow rate > 0 before division, deposit > claim before Sub, same denomination before Add, amount > 0 before NewCoins) or appear in the reviewed table keyed by function, API and ordinal with its reason; any other site — e.g. a newly added Int64() on a deposit-derived value — is a violation. Decides absence of unreviewed arithmetic panic sources, not liveness."
-	r.Rules = []string{"A10.panic-api", "A10.explicit-panic", "A2.panic-guard", "A10.implicit-panic", "A3.cancel-pairing", "A5.blocked-addresses", "A2.no-duration-refusal"}
+	r.Rules = []string{"A10.panic-api", "A10.explicit-panic", "A2.panic-guard", "A10.implicit-panic", "A3.cancel-pairing", "A5.blocked-addresses", "A2.no-duration-refusal", "A4.immutable-fields"}
 	// a cancel returns the unreleased remainder: every successful cancel refunds the stored remaining deposit (after the
 	// settlement) and only then deletes the stream
 	cancelPairing(c)
@@ -1481,6 +1481,8 @@ func C12(c *Ctx) {
 	// a claim, a cancel and an affordable top-up are not refused for how long the amount lasts at the stream's rate: the
 	// minimum-duration rule belongs to creation alone
 	noDurationRefusal(c)
+	// "a cancel by the sender succeeds": the flag that allows it is never lost on the way
+	streamKeepsCancellable(c)
 	r.Trusted = []string{"reasons recorded in the reviewed table (rate within [0,1] is C16's obligation)", "SDK arithmetic panics only as documented"}
 	r.NotDecided = []string{"that claim/cancel/top-up succeed (liveness)", "bank-side failures"}
 	scope := streamScope(c)
@@ -2205,4 +2207,39 @@ func noDurationRefusal(c *Ctx) {
 			"a "+method+" is not refused because of how long an amount lasts at the stream's flow rate (the one-minute minimum is a rule of stream creation)", bad)
 	}
 	r.Floor("functions on the top-up, claim and cancel routes searched for duration tests", n, 6)
+}
+
+// streamKeepsCancellable (A4.immutable-fields|stream.Cancellable): whether a stream can be cancelled is fixed when it is
+// created. Every store of a stream on the top-up, claim and flow-rate routes writes the Cancellable flag of the stream it
+// loaded: a record rebuilt from a fresh literal on one of those routes (`types.Stream{Deposit: ..., LastOutflowTime: now}`)
+// silently turns the flag off, and the sender can never again cancel and take back the remainder.
+func streamKeepsCancellable(c *Ctx) {
+	r := c.R
+	n := 0
+	for _, method := range []string{"TopUpDeposit", "ClaimStream", "UpdateFlowRate"} {
+		h := handlerOf(c, "stream", method)
+		if h == nil {
+			r.Undecided("A4.immutable-fields", "stream.Cancellable|"+method, "", "handler found", "missing")
+			continue
+		}
+		for _, in := range storeStructs(c, h, secStreams) {
+			st := in.E
+			if st == nil || st.Op != "struct" {
+				continue // the loaded record stored back whole
+			}
+			n++
+			cf := fieldOfStruct(st, "Cancellable")
+			ok := cf != nil
+			if ok {
+				for _, a := range cf.Alts() {
+					if !streamFieldX(c, a, "Cancellable") {
+						ok = false
+					}
+				}
+			}
+			r.Require(ok, "A4.immutable-fields", "stream.Cancellable|"+method+"|"+fn(in.Eff.Fn), pos(c, in.Eff.Site),
+				"a stream stored on the "+method+" route keeps the Cancellable flag it was created with", fmt.Sprint("Cancellable = ", cf))
+		}
+	}
+	r.Floor("stream stores on the top-up, claim and flow-rate routes judged for the Cancellable flag", n, 3)
 }
